@@ -1,13 +1,15 @@
 import AscentVerif.Proofs.C15ExpandList
 /-!
-# C15: expansion of diverging macros fails; expansion within the budget
+# C15: expansion of diverging macros and of macros that reach an empty disjunction fails; expansion within the budget
 -/
 namespace AscentVerif.Check
 open AscentVerif AscentVerif.Engine
 
 /-! ## diverging sets -/
 
-theorem expandItem_diverging' (ms : List MacroDef) (D : Name → Prop) (hD : Diverging ms D) :
+/-- an item that contains an invocation of a macro from which an empty disjunction is reached (or that
+invokes itself again and again) is never expanded successfully, whatever the depth budget -/
+theorem expandItem_reachesEmptyDisj (ms : List MacroDef) (D : Name → Prop) (hD : ReachesEmptyDisj ms D) :
     ∀ (fuel : Nat) (σ : Env) (π : List Nat) (it : Item) (m : Name), D m → Invokes it m →
       ∃ e, expandItem ms fuel σ π it = .error e := by
   intro fuel
@@ -28,13 +30,17 @@ theorem expandItem_diverging' (ms : List MacroDef) (D : Name → Prop) (hD : Div
           · exact ⟨_, rfl⟩
           · split
             · exact ⟨_, rfl⟩
-            · obtain ⟨it', hit', m', hm', hinv'⟩ := hD m hm d hl
-              obtain ⟨k, hk⟩ := exists_mem_zipIdx 0 hit'
-              obtain ⟨e, he⟩ := ih ⟨d.params.zip (args.map σ.arg), π⟩ (π ++ [k]) it' m' hm' hinv'
-              obtain ⟨e', he'⟩ := mapLazy_error_of_mem
-                (f := fun x : Item × Nat => expandItem ms fuel ⟨d.params.zip (args.map σ.arg), π⟩ (π ++ [x.2]) x.1) hk he
-              simp only [he']
-              exact ⟨_, rfl⟩
+            · split
+              · exact ⟨_, rfl⟩
+              · rename_i hne
+                rcases hD m hm d hl with hed | ⟨it', hit', m', hm', hinv'⟩
+                · exact absurd ((itemsHaveEmptyDisj_iff d.body).2 hed) hne
+                · obtain ⟨k, hk⟩ := exists_mem_zipIdx 0 hit'
+                  obtain ⟨e, he⟩ := ih ⟨d.params.zip (args.map σ.arg), π⟩ (π ++ [k]) it' m' hm' hinv'
+                  obtain ⟨e', he'⟩ := mapLazy_error_of_mem
+                    (f := fun x : Item × Nat => expandItem ms fuel ⟨d.params.zip (args.map σ.arg), π⟩ (π ++ [x.2]) x.1) hk he
+                  simp only [he']
+                  exact ⟨_, rfl⟩
     | @inDisj alts alt it' m halt hit' hinv' =>
       rw [expandItem]
       obtain ⟨ka, hka⟩ := exists_mem_zipIdx 0 halt
@@ -52,16 +58,28 @@ theorem expandItem_diverging' (ms : List MacroDef) (D : Name → Prop) (hD : Div
         refine List.mem_map.2 ⟨(alt, ka), hka, ?_⟩
         simp only [he1]
 
-theorem expandRule_diverging' (ms : List MacroDef) (D : Name → Prop) (hD : Diverging ms D) (r : Rule)
+theorem reachesEmptyDisj_of_diverging {ms : List MacroDef} {D : Name → Prop} (hD : Diverging ms D) :
+    ReachesEmptyDisj ms D := fun m hm d hd => Or.inr (hD m hm d hd)
+
+theorem expandItem_diverging' (ms : List MacroDef) (D : Name → Prop) (hD : Diverging ms D) :
+    ∀ (fuel : Nat) (σ : Env) (π : List Nat) (it : Item) (m : Name), D m → Invokes it m →
+      ∃ e, expandItem ms fuel σ π it = .error e :=
+  expandItem_reachesEmptyDisj ms D (reachesEmptyDisj_of_diverging hD)
+
+theorem expandRule_reachesEmptyDisj (ms : List MacroDef) (D : Name → Prop) (hD : ReachesEmptyDisj ms D) (r : Rule)
     (h : ∃ it ∈ r.body, ∃ m, D m ∧ Invokes it m) : ∃ e, expandRule ms r = .error e := by
   obtain ⟨it, hit, m, hm, hinv⟩ := h
   obtain ⟨k, hk⟩ := exists_mem_zipIdx 0 hit
-  obtain ⟨e, he⟩ := expandItem_diverging' ms D hD depthBudget Env.top [k] it m hm hinv
+  obtain ⟨e, he⟩ := expandItem_reachesEmptyDisj ms D hD depthBudget Env.top [k] it m hm hinv
   obtain ⟨e', he'⟩ := mapLazy_error_of_mem
     (f := fun x : Item × Nat => expandItem ms depthBudget Env.top [x.2] x.1) hk he
   unfold expandRule
   simp only [he']
   exact ⟨_, rfl⟩
+
+theorem expandRule_diverging' (ms : List MacroDef) (D : Name → Prop) (hD : Diverging ms D) (r : Rule)
+    (h : ∃ it ∈ r.body, ∃ m, D m ∧ Invokes it m) : ∃ e, expandRule ms r = .error e :=
+  expandRule_reachesEmptyDisj ms D (reachesEmptyDisj_of_diverging hD) r h
 
 theorem expandHead_diverging' (ms : List MacroDef) (D : Name → Prop) (hD : HDiverging ms D) :
     ∀ (fuel : Nat) (h : HItem) (m : Name), D m → HInvokes h m → ∃ e, expandHead ms fuel h = .error e := by
@@ -121,6 +139,26 @@ theorem rejected_of_desugar_error {s : Summary} (hr : Reaches s) {e : Err}
 
 /-! ## within the budget -/
 
+/-- an item that fits a budget contains no empty disjunction -/
+theorem not_fits_of_hasEmptyDisj (ms : List MacroDef) {it : Item} (h : HasEmptyDisj it) : ∀ n, ¬ Fits ms n it := by
+  induction h with
+  | here =>
+    intro n hf
+    cases hf with
+    | disj hne _ => exact hne rfl
+  | inDisj halt hit _ ih =>
+    intro n hf
+    cases hf with
+    | disj _ hall => exact ih _ (hall _ halt _ hit)
+
+theorem itemsHaveEmptyDisj_of_fits {ms : List MacroDef} {n : Nat} {its : List Item} (h : ∀ it ∈ its, Fits ms n it) :
+    itemsHaveEmptyDisj its = false := by
+  cases hb : itemsHaveEmptyDisj its with
+  | false => rfl
+  | true =>
+    obtain ⟨it, hit, hh⟩ := (itemsHaveEmptyDisj_iff its).1 hb
+    exact absurd (h it hit) (not_fits_of_hasEmptyDisj ms hh n)
+
 theorem expandItem_fits_err (ms : List MacroDef) :
     ∀ (n : Nat) (it : Item), Fits ms n it → ∀ (fuel : Nat) (σ : Env) (π : List Nat), n ≤ fuel →
       ∀ e, expandItem ms fuel σ π it = .error e → e = .panicFlatten := by
@@ -142,7 +180,7 @@ theorem expandItem_fits_err (ms : List MacroDef) :
     intro fuel σ π hn e he
     obtain ⟨f, rfl⟩ : ∃ f, fuel = f + 1 := ⟨fuel - 1, by omega⟩
     simp [expandItem] at he
-  | @disj n alts _ ih =>
+  | @disj n alts _ _ ih =>
     intro fuel σ π hn e he
     obtain ⟨f, rfl⟩ : ∃ f, fuel = f + 1 := ⟨fuel - 1, by omega⟩
     rw [expandItem] at he
@@ -159,11 +197,11 @@ theorem expandItem_fits_err (ms : List MacroDef) :
         exact ih a.1 (List.fst_mem_of_mem_zipIdx ha) x.1 (List.fst_mem_of_mem_zipIdx hx) f σ _ (by omega) _ hfx
       · exact (flattenP_error hfa).elim
     · cases he
-  | @mac n m args d hl hhead hlen _ ih =>
+  | @mac n m args d hl hhead hlen hbody ih =>
     intro fuel σ π hn e he
     obtain ⟨f, rfl⟩ : ∃ f, fuel = f + 1 := ⟨fuel - 1, by omega⟩
     rw [expandItem] at he
-    simp only [hl, hhead, hlen, Nat.lt_irrefl, Bool.false_eq_true, if_false] at he
+    simp only [hl, hhead, hlen, Nat.lt_irrefl, Bool.false_eq_true, if_false, itemsHaveEmptyDisj_of_fits hbody] at he
     split at he
     · rename_i e1 he1
       simp only [Except.error.injEq] at he
@@ -210,13 +248,15 @@ theorem expandItem_ne_panicFlatten (ms : List MacroDef) :
           · cases he
           · split at he
             · cases he
-            · dsimp only at he
-              split at he
-              · rename_i e1 he1
-                simp only [Except.error.injEq] at he
-                subst he
-                obtain ⟨x, hx, hfx⟩ := mapLazy_error he1
-                exact ih _ _ _ hfx
+            · split at he
               · cases he
+              · dsimp only at he
+                split at he
+                · rename_i e1 he1
+                  simp only [Except.error.injEq] at he
+                  subst he
+                  obtain ⟨x, hx, hfx⟩ := mapLazy_error he1
+                  exact ih _ _ _ hfx
+                · cases he
 
 end AscentVerif.Check
